@@ -1,5 +1,7 @@
 """C15 — with zero gap the largest difficulty among the returned assertions is the least achievable by any sufficient
 set of true assertions."""
+import math
+
 from . import common as C, raire as R
 
 ANCHORS = R.ANCHORS
@@ -16,8 +18,21 @@ def est_cases(maxtot):
                     b, c = float(S.bp_estimate(w, l, tot - w - l, tot)), float(S.cp_estimate(w, l, tot - w - l, tot))
                 except Exception:  # noqa
                     b = c = -1.0
+                if not (math.isfinite(b) and math.isfinite(c)):
+                    b = c = -1.0
                 cases.append((w, l, tot, b, c))
     return cases
+
+
+def mant_exp(x):
+    """finite double -> (m, e) with x == m * 2**e exactly"""
+    m, e = math.frexp(x)
+    return int(m * 2 ** 53), e - 53
+
+
+def est_lit(c):
+    (bm, be), (cm, ce) = mant_exp(c[3]), mant_exp(c[4])
+    return f"({c[0]}, {c[1]}, {c[2]}, {C.zlit(bm)}, {C.zlit(be)}, {C.zlit(cm)}, {C.zlit(ce)})"
 
 
 def run(ctx, res):
@@ -32,12 +47,16 @@ def run(ctx, res):
     # optimality concerns contests for which an audit is possible: of the exhaustive stream keep the non-empty outputs
     # (emptiness is C04's equation `output = [] <-> possible = false`, checked there on the whole stream)
     ex = [c for c in R.run_cases(ex) if c["impl"]["out"] is None or c["impl"]["out"]]
-    cases = ex + R.run_cases(rnd, rng)
-    cr = C.run_corr(ctx.pid, "raire", R.IMPORTS, "raire_case", cases, R.case_lit, "agree_c15", shard=250, show="show_c15")
-    res.corr.append(("max difficulty of compute_raire_assertions output vs verified optimum opt (RaireCheck.v)", cr, R.case_json))
+    R.run_cases(rnd, rng)
+    cases = ex + rnd
+    cr = C.run_corr(ctx.pid, "raire_ex", R.IMPORTS, "raire_case", ex, R.case_lit, "agree_c15", shard=500, show="show_c15")
+    res.corr.append(("max difficulty of compute_raire_assertions output vs verified optimum opt (RaireCheck.v), exhaustive small profiles",
+                     cr, R.case_json))
+    cr = C.run_corr(ctx.pid, "raire_rnd", R.IMPORTS, "raire_case", rnd, R.case_lit, "agree_c15", shard=40, show="show_c15")
+    res.corr.append(("max difficulty of compute_raire_assertions output vs verified optimum opt (RaireCheck.v), random profiles",
+                     cr, R.case_json))
     ec = est_cases(ctx.n(60, 90))
-    cr2 = C.run_corr(ctx.pid, "est", R.IMPORTS, "nat * nat * nat * Q * Q", ec,
-                     lambda c: f"({c[0]}, {c[1]}, {c[2]}, {C.qlit(c[3])}, {C.qlit(c[4])})", "agree_est", shard=1300,
+    cr2 = C.run_corr(ctx.pid, "est", R.IMPORTS, "nat * nat * nat * Z * Z * Z * Z", ec, est_lit, "agree_est", shard=1300,
                      show="show_est")
     res.corr.append(("bp_estimate / cp_estimate vs exact-rational bp_q / cp_q", cr2,
                      lambda c: {"winner": c[0], "loser": c[1], "total": c[2], "bp_estimate": c[3], "cp_estimate": c[4]}))
